@@ -18,7 +18,9 @@ def obs_axis11(ax, toks=None):
     if isinstance(ax, MultiAxis):
         err = None
         try:
-            tuples = [[str(x) for x in t] if isinstance(t, tuple) else [str(t)] for t in ax.values.tolist()]
+            # (a component that is itself a tuple - the label of a grouped member - is observed component-wise too)
+            comp = lambda x: [comp(y) for y in x] if isinstance(x, tuple) else str(x)
+            tuples = [comp(t) if isinstance(t, tuple) else [str(t)] for t in ax.values.tolist()]
         except Exception as e:  # noqa
             tuples, err = None, "%s: %s" % (type(e).__name__, str(e)[:80])
         out = {"name": ax.name, "kind": "O", "labels": [],
@@ -258,6 +260,8 @@ def check_leaf_axes(inp, out, attrs):
 
 
 def canon_component(x):
+    if isinstance(x, list):
+        return ("t", tuple(canon_component(y) for y in x))       # the tuple label of a grouped member
     try:
         from fractions import Fraction
         return ("n", Fraction(float(x)))
@@ -278,22 +282,25 @@ def check_flatten_axis(inp, out, dims_listed, insert):
     if [m["name"] for m in g.get("members", [])] != list(dims_listed):
         bad.append("axes.members:order")
     else:
-        nested = any(in_axes[d].get("members") for d in dims_listed)
         for m in g["members"]:
             if axis_sig(m, False) != axis_sig(in_axes[m["name"]], False):
                 bad.append("axes.members:labels")
             elif axis_sig(m) != axis_sig(in_axes[m["name"]]):
                 bad.append("axes.attrs:member")
-        if not nested:
-            want = [[canon_component(core.dec_label(l, in_axes[d]["kind"])) for d, l in zip(dims_listed, combo)]
-                    for combo in itertools.product(*[in_axes[d]["labels"] for d in dims_listed])]
+        # the labels of a member: its plain labels, or - for a member that is itself grouped - its own tuple labels
+        # (a group of a single axis has that axis's labels)
+        def member_labels(ax):
+            if not ax.get("members"):
+                return [core.dec_label(l, ax["kind"]) for l in ax["labels"]]
+            return member_labels(ax["members"][0]) if len(ax["members"]) == 1 else ax.get("tuples")
+        mlabs = [member_labels(in_axes[d]) for d in dims_listed]
+        if len(dims_listed) > 1 and all(l is not None for l in mlabs):
+            want = [[canon_component(x) for x in combo] for combo in itertools.product(*mlabs)]
             got = None if g.get("tuples") is None else [[canon_component(x) for x in t] for t in g["tuples"]]
-            if len(dims_listed) > 1 and got is not None and got != want:
+            if got is not None and got != want:
                 bad.append("axes.labels:tuples")
-            if len(dims_listed) > 1 and got is None:
+            if got is None:
                 bad.append("axes.labels:tuples_unavailable")
-        # TODO(defect): the tuple labels of a grouped axis one of whose members is itself grouped cannot be built under
-        # NumPy 2 (MultiAxis.values raises ValueError: inhomogeneous shape); the label check skips exactly that form
     rest = [d for d in inp["dims"] if d not in dims_listed]
     if insert is not None:
         ins = min(insert, len(rest))
